@@ -31,12 +31,36 @@ func main() {
 		lib.Finish(f, res)
 	}
 
+	// debugging aid (never set by ./check): run one phase only
+	if os.Getenv("C02_ONLY") == "store-level" {
+		runStoreLevel(f, res)
+		lib.Finish(f, res)
+	}
+	if os.Getenv("C02_ONLY") == "net" {
+		runNetBoundaries(f, res, nil)
+		lib.Finish(f, res)
+	}
+
 	// phase "wide": position-exhaustive tampering around multiples of the worker count (alone:
 	// it changes GOMAXPROCS)
 	tWide := time.Now()
 	runWide(f, res, nil)
 	res.SetExtra("wide_phase_seconds", time.Since(tWide).Seconds())
 	checkpoint(f, res)
+
+	// phase "store-level": the model's own index store against the real database after every
+	// operation (own driver process; next to the tamper passes)
+	var kvDone sync.WaitGroup
+	kvDone.Add(1)
+	go func() {
+		defer kvDone.Done()
+		tKV := time.Now()
+		runStoreLevel(f, res)
+		res.SetExtra("store_level_phase_seconds", time.Since(tKV).Seconds())
+		tNet := time.Now()
+		runNetBoundaries(f, res, nil)
+		res.SetExtra("network_boundaries_phase_seconds", time.Since(tNet).Seconds())
+	}()
 
 	// hash correspondence and fixtures run next to the first tamper pass (own driver process)
 	var side sync.WaitGroup
@@ -129,6 +153,7 @@ func main() {
 		checkpoint(f, res)
 	}
 	res.SetExtra("tamper_phase_seconds", time.Since(tTamper).Seconds())
+	kvDone.Wait()
 	lib.Finish(f, res)
 }
 
@@ -147,6 +172,17 @@ func runReplay(f lib.Flags, res *lib.Result) {
 		res.Fatalf("replay: %v", err)
 		return
 	}
+	// the store-level phase and the read-fault oracle are short and deterministic: their replays name the
+	// operation, the whole phase is re-run
+	var generic struct {
+		Replay map[string]any `json:"replay"`
+	}
+	if err := json.Unmarshal(raw, &generic); err == nil {
+		if c, _ := generic.Replay["case"].(string); c == "store-level" || c == "read-fault" {
+			runStoreLevel(f, res)
+			return
+		}
+	}
 	var doc struct {
 		Replay replay `json:"replay"`
 	}
@@ -155,6 +191,17 @@ func runReplay(f lib.Flags, res *lib.Result) {
 		return
 	}
 	rp := doc.Replay
+	if rp.Task.Chain == 200 {
+		ff := f
+		if rp.Seed != 0 {
+			ff.Seed = rp.Seed
+		}
+		if rp.Tier != "" {
+			ff.Tier = rp.Tier
+		}
+		runNetBoundaries(ff, res, &rp)
+		return
+	}
 	ff := f
 	if rp.Seed != 0 {
 		ff.Seed = rp.Seed
